@@ -142,6 +142,16 @@ CHECKS = [
          note='Trusted: the ground truth is the generator\'s own edit list; molecule identity within roles uses canonical strings '
               '(C01 gaps skipped) and only for valence-valid reactions.',
          technique='property-based testing with constructed ground truth (reference model = the edit list) and metamorphic permutation/renumbering relations'),
+    dict(id='C16',
+         text='Generated substrates (functional groups grafted through the API) x 22 synthetic transformation templates covering '
+              'each patcher branch and 4 reactor templates (two reactants with colliding numbers, spectator molecules): a '
+              'labelled-graph patch model computes the expected product of every reported match (deleted atoms and detached '
+              'fragments, in-place element/charge/radical/isotope, new atoms and their numbers, bond orders, hydrogens of patched '
+              'atoms from the valence re-derivation); one product per match, input untouched, stereo frame condition, identity '
+              'template, unique product numbers, invariance of the product set under renumbering and reactant order.',
+         note='Trusted: the patch model in the check (semantics from the property text); matches themselves are taken from the '
+              'library (C07 decides them). Aromatic ring fixing is off for the atom-wise comparison.',
+         technique='model-based property-based testing (labelled-graph patch model) with metamorphic renumbering/order relations'),
     dict(id='C17',
          text='Generated molecules x drawn parameters (radii 1-6, length 2^4..2^12, active bits 1-4, bit pairs 0-5): linear hash sets '
               'against an independent simple-path enumerator with the multiplicity cap, Morgan sets against an independent iterated '
